@@ -12,7 +12,7 @@ from ..core import Outcome
 PROPERTY = 'C16'
 ISOLATE = False
 LEVEL = 'exploration'
-TIERS = {'quick': {'runs': 260, 'wall': 85, 'min_budget': 60}, 'thorough': {'runs': 40000, 'wall': 1500, 'min_budget': 200}}
+TIERS = {'quick': {'runs': 700, 'wall': 85, 'min_budget': 60}, 'thorough': {'runs': 40000, 'wall': 1500, 'min_budget': 200}}
 RULE = ('one run = one generated database in the supported fragment (constants, constructors of arity 0-3 whose argument order differs from the $f order, declared notations, '
         'axioms, rules with 1-3 essential hypotheses, proof-rule-prop-1/-prop-2/-mp, target with 0-3 metavariables) and a random derivation of the target grown top-down '
         '(axiom by anti-unification, rule whose conclusion generalises the node, modus ponens with a random minor premise, prop-1 instance), re-verified by R4, encoded in 3 '
